@@ -408,6 +408,11 @@ func runFaultCase(c *core.Case) *core.Result {
 	res := &core.Result{}
 	r := c.R
 	cfg := GenConfig(r, 2)
+	if c.Idx%7 == 3 {
+		// SyncNone: nothing is promised about durability, but a failed write
+		// still has to fail the commit
+		cfg.SyncMode = int(txfile.SyncNone)
+	}
 	p := DefaultGen()
 	p.Txs = 3 + r.Intn(8)
 	p.OpsPerTx = 8
